@@ -633,61 +633,94 @@ pub fn check_main(sc: &DynScenario, o: &CheckOpts) -> i32 {
             harness_errors.push(format!("missing binary {}", bin_for(profile).display()));
             continue;
         }
-        // contiguous ranges, one per worker
+        // contiguous ranges: one per worker, cut further when the scenario
+        // asks for short-lived processes; executed by a pool of `workers`
         let n = (hi - lo).max(1);
         let w = (o.workers as u64).min(n).max(1);
-        let mut ranges: Vec<(u64, u64)> = (0..w)
-            .map(|i| (lo + n * i / w, lo + n * (i + 1) / w))
-            .filter(|(a, b)| a < b)
-            .collect();
-        while !ranges.is_empty() {
-            let mut handles = Vec::new();
-            for (a, b) in ranges.drain(..) {
-                match spawn_worker(profile, sc.id, o.tier, o.seed, a, b, false) {
+        let per = ((n + w - 1) / w).min((sc.runs_per_process)(o.tier)).max(1);
+        let mut ranges: std::collections::VecDeque<(u64, u64)> = std::collections::VecDeque::new();
+        let mut a = lo;
+        while a < hi {
+            let b = (a + per).min(hi);
+            ranges.push_back((a, b));
+            a = b;
+        }
+        let queue = std::sync::Arc::new(std::sync::Mutex::new(ranges));
+        let results: std::sync::Arc<std::sync::Mutex<Vec<(u64, u64, WorkerOut)>>> =
+            std::sync::Arc::new(std::sync::Mutex::new(Vec::new()));
+        let spawn_errors = std::sync::Arc::new(std::sync::Mutex::new(Vec::<String>::new()));
+        let crash_budget = std::sync::Arc::new(std::sync::atomic::AtomicU32::new(40));
+        let mut pool = Vec::new();
+        for _ in 0..w {
+            let queue = queue.clone();
+            let results = results.clone();
+            let spawn_errors = spawn_errors.clone();
+            let crash_budget = crash_budget.clone();
+            let id = sc.id;
+            let (tier, seed) = (o.tier, o.seed);
+            pool.push(std::thread::spawn(move || loop {
+                let next = queue.lock().unwrap().pop_front();
+                let (a, b) = match next {
+                    Some(r) => r,
+                    None => break,
+                };
+                match spawn_worker(profile, id, tier, seed, a, b, false) {
                     Ok(child) => {
-                        handles.push((a, b, std::thread::spawn(move || read_worker(child))))
+                        let out = read_worker(child);
+                        if out.done.is_none() && out.harness_error.is_none() {
+                            if let Some((run, _)) = out.crash {
+                                let run = if run == u64::MAX { a } else { run };
+                                // carry on after the crashed run in a fresh process
+                                if run + 1 < b && crash_budget.fetch_sub(1, Ordering::SeqCst) > 1 {
+                                    queue.lock().unwrap().push_back((run + 1, b));
+                                }
+                            }
+                        }
+                        results.lock().unwrap().push((a, b, out));
                     }
-                    Err(e) => harness_errors.push(format!("spawn worker: {e}")),
+                    Err(e) => spawn_errors.lock().unwrap().push(format!("spawn worker: {e}")),
                 }
+            }));
+        }
+        for t in pool {
+            let _ = t.join();
+        }
+        harness_errors.extend(spawn_errors.lock().unwrap().drain(..));
+        let mut outs = std::mem::take(&mut *results.lock().unwrap());
+        outs.sort_by_key(|x| x.0);
+        for (a, b, out) in outs {
+            if let Some(e) = out.harness_error {
+                harness_errors.push(e);
+                continue;
             }
-            for (a, b, h) in handles {
-                let out = h.join().unwrap();
-                if let Some(e) = out.harness_error {
-                    harness_errors.push(e);
-                    continue;
-                }
-                for (run, case, f) in out.fails {
-                    collected.push(Collected {
-                        profile,
-                        run,
-                        case,
-                        failure: f,
-                    });
-                }
-                if let Some(d) = out.done {
-                    merge_obs(&mut merged, &d, &out.hashes, &out.paths);
-                    *per_profile_evals.entry(profile.name()).or_default() +=
-                        d["evaluations"].as_u64().unwrap_or(0);
-                } else if let Some((run, sig)) = out.crash {
-                    crashes += 1;
-                    let run = if run == u64::MAX { a } else { run };
-                    // attribute: re-run that run alone, announcing each case
-                    let case = attribute_crash(profile, sc.id, o.tier, o.seed, run);
-                    collected.push(Collected {
-                        profile,
-                        run,
-                        case: case.unwrap_or(Value::Null),
-                        failure: crash_failure(sc.id, sig),
-                    });
-                    if crashes < 40 && run + 1 < b {
-                        ranges.push((run + 1, b));
-                    }
-                } else {
-                    harness_errors.push(format!(
-                        "worker for runs {a}..{b} ended without a report (signal {:?})",
-                        out.exit_signal
-                    ));
-                }
+            for (run, case, f) in out.fails {
+                collected.push(Collected {
+                    profile,
+                    run,
+                    case,
+                    failure: f,
+                });
+            }
+            if let Some(d) = out.done {
+                merge_obs(&mut merged, &d, &out.hashes, &out.paths);
+                *per_profile_evals.entry(profile.name()).or_default() +=
+                    d["evaluations"].as_u64().unwrap_or(0);
+            } else if let Some((run, sig)) = out.crash {
+                crashes += 1;
+                let run = if run == u64::MAX { a } else { run };
+                // attribute: re-run that run alone, announcing each case
+                let case = attribute_crash(profile, sc.id, o.tier, o.seed, run);
+                collected.push(Collected {
+                    profile,
+                    run,
+                    case: case.unwrap_or(Value::Null),
+                    failure: crash_failure(sc.id, sig),
+                });
+            } else {
+                harness_errors.push(format!(
+                    "worker for runs {a}..{b} ended without a report (signal {:?})",
+                    out.exit_signal
+                ));
             }
         }
     }
